@@ -3,8 +3,9 @@
 # verifc15etcd (the later -tags flag replaces the runner's `-tags verif`) so that no OTHER build of ./pkg/cluster under
 # the overlay - a hand-run `go test` without -modfile - compiles them.
 PROP = {
-    "lean_modules": ["GunYu.Props.C15", "GunYu.Props.C15Etcd", "GunYu.Props.C15Ticker"],
-    "gens": ["c15etcd", "c15ticker"],
+    "lean_modules": ["GunYu.Props.C15", "GunYu.Props.C15Etcd", "GunYu.Props.C15Ticker", "GunYu.Props.C15TickerEq",
+                     "GunYu.Props.C15Arith", "GunYu.Props.C15Cluster", "GunYu.Props.C15ClusterRun", "GunYu.Props.C15EtcdJunk", "GunYu.Props.C15TickerDl", "GunYu.Props.C15Sim", "GunYu.Props.C15Loop"],
+    "gens": ["c15etcd", "c15ticker", "c15arith"],
     "audit_namespaces": ["GunYu.Props.C15"],
     "required_theorems": [
         "GunYu.Props.C15.at_most_one_holder",
@@ -47,6 +48,50 @@ PROP = {
         "GunYu.Props.C15.tickd_leader_within_hold",
         "GunYu.Props.C15.tickd_leads_within_hold",
         "GunYu.Props.C15.ticker_retry_is_two",
+        # session 5: the two ticker models are one (general equivalence, replaces the driver's per-scenario comparison)
+        "GunYu.Props.C15.tickerRunD_eq_tickerRun",
+        "GunYu.Props.C15.tickd_failed_renewal_stops_leader",
+        "GunYu.Props.C15.tickd_blocked_renewal_stops_leader",
+        "GunYu.Props.C15.tickd_deadline_is_send_plus_hold",
+        # session 5: TAllowed derived: system schedule <-> local traces of the instances; a ticker term is locally allowed
+        "GunYu.Props.C15.view_tstep",
+        "GunYu.Props.C15.trunOk_iff_local",
+        "GunYu.Props.C15.lrunOk_idle",
+        "GunYu.Props.C15.ticker_term_localOk",
+        "GunYu.Props.C15.ticker_localOk",
+        "GunYu.Props.C15.leaderTrace_returns_with_loop",
+        "GunYu.Props.C15.at_most_one_acting_of_local",
+        # session 5: runCluster's loop after the first campaign: the theorems of C16's hand-over model, imported
+        "GunYu.Props.C15.loop_resign_only_after_stop",
+        "GunYu.Props.C15.loop_silent_until_campaign_won",
+        "GunYu.Props.C15.loop_campaign_outcome",
+        "GunYu.Props.C15.loop_no_two_senders",
+        # session 5: duration arithmetic regenerated from config.go / cmd/syncer.go (Gen/LeaseArith.lean)
+        "GunYu.Props.C15.gen_fixDur_eq_model",
+        "GunYu.Props.C15.gen_fix_range",
+        "GunYu.Props.C15.gen_storeTtl_eq_model",
+        "GunYu.Props.C15.gen_etcdTtl_eq_storeTtl",
+        "GunYu.Props.C15.gen_hold_plus_renew",
+        "GunYu.Props.C15.gen_leaseHold_eq_model",
+        "GunYu.Props.C15.cfg_hold_renew_ttl",
+        "GunYu.Props.C15.at_most_one_acting_from_config",
+        "GunYu.Props.C15.at_most_one_acting_one_second",
+        # session 5: cluster-type lease store (MOVED re-issue, ASK / ASKING) refines the single store, one request
+        "GunYu.Props.C15.exec_other",
+        "GunYu.Props.C15.exec_congr",
+        "GunYu.Props.C15.execAt_refines",
+        "GunYu.Props.C15.clientDo_refines",
+        "GunYu.Props.C15.cluster_request_refines_partial",
+        "GunYu.Props.C15.absStore_tick",
+        "GunYu.Props.C15.begin_ok",
+        "GunYu.Props.C15.migrateKey_ok",
+        "GunYu.Props.C15.finish_ok",
+        "GunYu.Props.C15.move_ok",
+        "GunYu.Props.C15.cstep_refines",
+        "GunYu.Props.C15.cluster_run_refines",
+        # session 5: etcd election from ANY well-formed key space (foreign junk under the prefix)
+        "GunYu.Props.C15.etcd_inv_initWith",
+        "GunYu.Props.C15.etcd_at_most_one_holder_any_keyspace",
     ],
     # Only the part of cmd/syncer.go that NO harness executes is pinned by source facts: runCluster after its first
     # campaign (syncer start/stop around the ticker, resign): the order of the calls that matter and the control-flow
@@ -62,14 +107,14 @@ PROP = {
         "lease_ticker_retry": "2",
         "lease_timer_arm": "time.Until(leaseFrom.Add(sc.leaseHold()))",
         "lease_timer_rearm": "time.Until(sentAt.Add(sc.leaseHold()))",
-        "lease_hold_expr": "time.Duration(int(cc.LeaseTimeout/time.Second))*time.Second - cc.LeaseRenewInterval",
+        # (lease_hold_expr, etcd_ttl_assign: replaced by the regenerated definitions leaseHold / etcdTtl of Gen/LeaseArith.lean
+        #  and the theorems gen_hold_plus_renew / gen_etcdTtl_eq_storeTtl - an equivalent rewrite of either no longer alarms)
         # etcd: the part of etcd_cluster.go / config.go that cannot run without a server (NewEtcdCluster): how the
         # session is made and where its TTL comes from. The requests themselves are regenerated (Gen/EtcdElection.lean).
         "etcd_key_expr": 'fmt.Sprintf("%s%x", e.keyPrefix, e.sess.Lease())',
         "etcd_try_args": ["ctx", "e.id"],
         "etcd_session_args": ["cli", "concurrency.WithTTL(cfg.Ttl)"],
         "etcd_newelection_fields": ["cli: c.cli", "keyPrefix: electionPath", "sess: c.sess", "id: id"],
-        "etcd_ttl_assign": ["cc.MetaEtcd.Ttl = int(cc.LeaseTimeout / time.Second)"],
     },
     "harness": [
         {"name": "C15", "pkg": "./pkg/cluster/", "test": "TestVerifC15", "timeout_quick": "10m", "timeout_thorough": "40m"},
@@ -78,6 +123,7 @@ PROP = {
         {"name": "C15fix", "pkg": "./config/", "test": "TestVerifC15Fix"},
         {"name": "C15cmd", "pkg": "./cmd/", "test": "TestVerifC15Cmd", "timeout_quick": "10m", "timeout_thorough": "30m"},
         {"name": "C15tick", "pkg": "./cmd/", "test": "TestVerifC15Tick", "timeout_quick": "10m", "timeout_thorough": "30m"},
+        {"name": "C15loop", "pkg": "./cmd/", "test": "TestVerifC15Loop", "timeout_quick": "10m", "timeout_thorough": "10m"},
     ],
     "driver": "drv_C15",
     "rule": "event lists: corpus; ALL lists of length<=4 (quick) / <=5 (thorough) over {campaign a, campaign b, renew a, resign a, resign b, "
@@ -110,14 +156,19 @@ PROP = {
             "renew a, resign a, tick ttl/2, tick ttl+1, lost-but-applied campaign b, slot of the key -> node 0, -> node 1, leader}; generated lists with slot "
             "moves mixed in) through NewRedisCluster with a cluster-type configuration = the REAL cluster client (EVAL routed by the key's slot, GET located "
             "with COMMAND GETKEYS, -MOVED handled by re-issuing on the node named, CLUSTER SLOTS refresh) against a 3-node double sharing the lease key space "
-            "(`mv:<key>:<node>` re-assigns the slot, its keys move with it); same model, same monitors (counters cluster_requests_moved_and_reissued, "
-            "cluster_trace_with_redirect). ETCD election (C15etcd): the REAL etcdElection.Campaign/Renew/Resign/Leader + the real clientv3 KV/Txn code + the "
+            "(`mv:<key>:<node>` re-assigns the slot, its keys move with it; `mg:<key>:<node>` starts MIGRATING the key's slot to a node = IMPORTING there: the "
+            "owner answers -ASK for a key it no longer has, the importing node serves only after ASKING, else -MOVED; `mk:<key>` MIGRATEs the key; both in the "
+            "exhaustive alphabet and the generated lists: the REAL handleAsk = ASKING + request on the node named); same model, same monitors (counters "
+            "cluster_requests_moved_and_reissued, cluster_requests_asked = cluster_requests_served_after_asking, cluster_trace_with_redirect / _with_ask, "
+            "ev_migrate_begin, ev_migrate_key). Lean side: Model/LeaseCluster.lean (nodes, slot table, migration state, the client's redirections) with "
+            "cluster_run_refines: every run equals the single-store run. ETCD election (C15etcd): the REAL etcdElection.Campaign/Renew/Resign/Leader + the real clientv3 KV/Txn code + the "
             "real concurrency.Session on an in-process etcd double that receives the protobuf requests (no etcd binary): event lists of session grants "
             "(lease ids incl. 2^63-1 and ids whose hex collides across prefixes - correspondence only), keep-alives that arrive or not, Session.Close, ticks "
             "aimed at lease deadlines -1/0/+1 ms, Campaign/Renew/Resign with the request lost before or after it was applied (Campaign: its Txn or its "
             "Delete), a Campaign HELD between its transaction and its Delete while others resign / expire / renew / campaign (ALL windows of length<=2 "
             "quick / <=3 thorough x 3 prefixes x 3 suffixes x Delete ok / lost / applied-lost), ALL lists of length<=3 quick / <=4 thorough over 12 events "
-            "of two sessions, generated lists of 2-40 events with 1-4 sessions on 1-3 prefixes; every result, the key space with create revisions and "
+            "of two sessions, generated lists of 2-40 events with 1-4 sessions on 1-3 prefixes, a quarter of them on a key space that already holds 1-2 "
+            "foreign lease-less keys under an election prefix or elsewhere (`j:` events, counter etcd_ev_junk_key); every result, the key space with create revisions and "
             "leases, the store revision, the REAL fields e.key / e.rev of every election object and the holders vs Lean Etcd.step (requests = regenerated "
             "AST). Monitors (etcd): etcd-two-holders, etcd-success-over-foreign-key, etcd-success-without-key, etcd-failed-renew-not-reported, "
             "etcd-told-leader-without-answer, etcd-foreign-key-changed, etcd-resign-released-foreign-key, etcd-key-without-lease (an election key not "
@@ -129,7 +180,15 @@ PROP = {
             "closes, + random (periods 1-30 s); calls with send instants, close, return vs Lean tickerRunD (retry count and re-arm base regenerated from the source: the base counts as 'from the send' only if "
             "the re-arm expression is time.Until(x.Add(sc.leaseHold())) with x := time.Now() standing before the statement that starts the call AND x is "
             "assigned nowhere else in the function; re-assigned to time.Now() = 'from the answer' (the theorem then no longer builds); any other shape: "
-            "the generator fails); every branch of clusterTicker counted (tickd_branch_*); monitor leads-past-its-lease on answered successes. contendsrc ops: two "
+            "the generator fails); every branch of clusterTicker counted (tickd_branch_*); monitor leads-past-its-lease on answered successes. C15loop (session 5): the REAL run() / runCluster BEYOND the first campaign against the "
+            "lease-store double (real scripts, real client), restarted as Run() restarts it: campaign won -> real NewSyncer / RunLeader + real clusterTicker "
+            "renewing -> the harness moves the store's LOGICAL clock past the lease and writes another contender's value (atomically, its place among the "
+            "EVALs exact) -> renewal refused -> wait closed, sy.Stop, Resign (monitor resign-released-foreign-lease) -> run ends, run again -> campaign "
+            "refused (monitor success-over-foreign-lease over the whole foreign term) -> follow / candidate, campaigning -> foreign lease runs out on the "
+            "store's clock -> campaign won -> leads again -> its syncer ends (the source double refuses SELECT) -> Resign of its own lease (monitor "
+            "resign-kept-own-lease); op `loop`: the EVALs the store saw (campaign / resign script, id; consecutive equal ones collapsed) with the injections, "
+            "replies vs Lean campaignCall / resignCall on the regenerated scripts; wall clock only paces the ticker (1 s) and RunLeader's own end (~5 s): no "
+            "verdict depends on a wait, a condition that does not come within 60 s is a broken tie (about 9 s per run). contendsrc ops: two "
             "hosts whose configurations spell ONE source differently through the real InitSyncerConfig + run(): OBSERVATION only (counters contendsrc_*; two "
             "keys = two leases, outside the property; two leaders under one spelling are reported). "
             "Monitors on the real code (independent of Lean; each demands only what C15 states - inequalities relative to ttl, never the "
@@ -155,8 +214,11 @@ PROP = {
         "takes the minimum), mod revisions, watches, compaction, an EMPTY election prefix (the client turns it into the whole key space; never generated)",
         "the etcd client library's lessor (keep-alive every TTL/3, re-connect) is NOT run: keep-alives are harness events with any schedule; "
         "concurrency.NewSession / Session.Close and the clientv3 KV / Txn request builders are the real ones",
-        "cluster mode of the lease-store double: -MOVED for a key of a slot the node does not own (nothing executed), CLUSTER SLOTS, COMMAND GETKEYS; "
-        "a slot move takes its keys along. Not transcribed: ASK / migrating-importing states, replicas, fail-over",
+        "cluster mode of the lease-store double AND Model/LeaseCluster.lean `serve` (two hand transcriptions of cluster.c getNodeByQuery for one-key requests, "
+        "no redis-server to cross-check; they meet only through the real client): -MOVED for a key of a slot the node does not own (nothing executed), "
+        "MIGRATING owner: serves a key it has, -ASK <importing node> for one it has not; IMPORTING node: serves after ASKING (one-shot flag of the "
+        "connection), else -MOVED; CLUSTER SLOTS names the owner throughout; COMMAND GETKEYS; a completed move takes the keys along. Not transcribed: "
+        "-TRYAGAIN (multi-key requests: the election has none), replicas, fail-over, a node that loses a slot while it holds unmigrated keys",
         "lease-store double (RESP server, logical clock, fault injection) in harness/overlay/pkg/cluster/vf_hook_c15_store.go; host part of a peer address: only the spellings '' / 0.0.0.0 / :: of the unspecified address are modelled (Model/Lease.lean unspecHost)",
     ],
     "assumptions": [
@@ -164,7 +226,8 @@ PROP = {
         "'holder' is defined on the store's clock from the instant the script ran)",
         "the lease store IS the source Redis (client.NewRedis(Input.Redis)), or the etcd cluster of cluster.metaEtcd: a fail-over of the source that "
         "loses the key (asynchronous replication) or a slot re-assigned WITHOUT its keys loses or forks the lease. Exercised: standalone connection and "
-        "a cluster-type input whose slots move WITH their keys (-MOVED, re-issue on the node named); not exercised: ASK during a migration, fail-over",
+        "a cluster-type input whose slots move WITH their keys (-MOVED, re-issue on the node named) or are being migrated key by key (-ASK / ASKING); "
+        "proved for the cluster model: cluster_run_refines (any slot table, migration state, stale client table); not exercised, not modelled: fail-over",
         "ELECTION KEY = <ns>/<group>/input-election/<A>/ where A is the source shard's master ADDRESS STRING as THIS instance knows it (cmd/syncer.go "
         "runCluster: cfg.Input.GetClusterShard(cfg.Input.Address()).Master.Address - for a standalone input the string written under "
         "input.redis.addresses, for a cluster input the address CLUSTER NODES reports to this instance). The property is per LEASE (= per key): "
@@ -185,11 +248,18 @@ PROP = {
         "hosts both configured `localhost:18001` (or the same literal address) still share one identity - an operator error no local "
         "configuration check can see (docs: 'do not use 127.0.0.1'); the theorems REDUCE 'ids distinct' to 'configured strings distinct' "
         "(distinct_addresses_distinct_ids), they do not discharge it",
-        "an instance stops acting as leader before it calls Resign (runCluster: sy.Stop(); syncerWait.WgWait(); elect.Resign - call order + "
-        "control-flow skeleton compared as source facts; that Stop() really ends every output goroutine is syncer code outside C15's "
-        "harnesses); after an error from Campaign/Renew its belief is unchanged until the next answer or until its lease runs out",
-        "cmd/syncer.go: run(), runCluster up to its first campaign, clusterTicker/clusterRenew/clusterCampaign are executed for real; the rest "
-        "of runCluster is tied by source facts only; a Resign that is skipped or late only delays takeover by <= ttl (takeover_possible)",
+        "an instance stops acting as leader before it calls Resign: no longer assumed bare - runCluster's loop after the first campaign (lead, stop, "
+        "resign / lose, pause, follow, campaign again) has a model, Model/Handover.lean (C16's), and C15 imports its theorems (Props/C15Loop.lean: "
+        "loop_resign_only_after_stop, loop_silent_until_campaign_won, loop_campaign_outcome, loop_no_two_senders); that model is tied to the code by "
+        "C16's facts and by C16's harness C16ho, which runs the REAL runCluster of two instances through those role changes on the wall clock "
+        "(virtual time cannot carry it: real loopback sockets never block durably for testing/synctest - C16ho's finding); C15's OWN run of that loop "
+        "against the C15 lease-store double (real Lua scripts): harness C15loop - one instance, lead / lose / resign / refused / win again / resign, on the "
+        "wall clock with the lease on the store's logical clock; what it does NOT observe: the instant RunLeader's goroutines have ended relative to "
+        "the Resign (only the order of the store's EVALs), hand-over between two real instances (C16ho); the call order sy.Stop / WgWait / Resign stays compared as C15 source facts too. That Stop() really ends every output goroutine is "
+        "syncer code outside C15's harnesses; after an error from Campaign/Renew its belief is unchanged until the next answer or its lease runs out",
+        "cmd/syncer.go: run(), runCluster up to its first campaign, clusterTicker/clusterRenew/clusterCampaign are executed for real by C15's harnesses, "
+        "the rest of runCluster (stop, resign, pauses, follower branch, campaign again) by C15loop for one instance and by C16ho for two; the timing guard of the hand-over model (`timely`) and C15's acting_has_lease say the same in "
+        "two vocabularies and are NOT connected by a Lean theorem; a Resign that is skipped or late only delays takeover by <= ttl (takeover_possible)",
         "acting interval (RunLeader running): at_most_one_acting / acting_intervals_disjoint hold for EVERY schedule of sends, script "
         "executions, answers of any lateness or none, abandoned calls, stray executions, stops, crashes and resigns, under ONE schedule "
         "condition (TAllowed): real time does not pass beyond okSent + hold while an instance leads, hold <= ttl. The code meets it since fix "
@@ -197,7 +267,9 @@ PROP = {
         "tied by the real clusterTicker under virtual time incl. calls that never return - before the fix the ticker blocked in the call and "
         "the instance kept leading: counter-witness blockedEvs, corpus d_renew_never_returns). hold = leaseHold (store ttl - renew period, on "
         "the INSTANCE's clock) + drift D of that clock against the store's over one lease + time S from clusterTicker's return until "
-        "sy.Stop()/WgWait have ended the syncer: assumed D + S <= renew period (>= 1 s) (at_most_one_acting_with_drift); neither D nor S is "
+        "sy.Stop()/WgWait have ended the syncer: assumed D + S <= renew period (at_most_one_acting_from_config: ttl, hold and renew period are the REGENERATED arithmetic of config fix / "
+        "run() / leaseHold() / the ticker period - Gen/LeaseArith.lean - for any configuration as written, all numeric hypotheses discharged: "
+        "hold + renew = ttl*1s exactly, renew >= 1 s, so 1 s of drift + stop time is always enough: at_most_one_acting_one_second); neither D nor S is "
         "measured. Nothing bounds an election call itself (redisElection ignores its context, client.Do has no deadline: stat "
         "renew_ignores_ctx_deadline every run): a stuck call leaves its goroutine and the client blocked; Resign after such a stall blocks "
         "runCluster (the instance no longer leads; liveness only)",
@@ -215,17 +287,33 @@ PROP = {
         "their content is the tie of electionId to the real configuration code through run())",
         "ticker: two hand-written models of clusterTicker, both executed against the REAL function under virtual time: tickerRun (calls answer at once "
         "or never; theorems ticker_*) and tickerRunD (every answer has a duration, Go ticker keeps one tick / drops the rest, outside close, closed at "
-        "entry; theorems tickd_*); the driver checks that they agree on every duration-free scenario, no general equivalence proof. Regenerated from "
+        "entry; theorems tickd_*); since session 5 ONE model: tickerRunD_eq_tickerRun (every role, R > 0, hold, age, tick count, script: tickerRunD on "
+        "zero durations without outside close IS tickerRun), ticker_* carried over (tickd_failed_renewal_stops_leader, tickd_blocked_renewal_stops_leader); "
+        "the driver's per-scenario comparison stays as a cross-check of the native code. Regenerated from "
         "cmd/syncer.go: the retry count and the base of the re-arm expression (Gen/TickerParams.lean) - the loop structure itself (select / goroutine / "
         "close on error) is hand-transcribed and pinned by the skeleton fingerprint + the branch counters tickd_branch_* (all non-zero). Scenarios in "
         "which two instants coincide (a Go select with two ready cases) and slow FAILING answers are excluded by construction",
         "corollaries / pins kept by name, not counted as content: etcd_at_most_one_holder_always (etcd_at_most_one_holder on evs.take n), "
         "acting_intervals_disjoint (at_most_one_acting on evs.take n), at_most_one_acting_with_drift (at_most_one_acting with hold := H+D+S; D, S not "
-        "measured), ticker_retry_is_two (rfl on a generated constant); TAllowed (hypothesis of the acting theorems) is linked to tickd_* in prose only - "
-        "no theorem from tickerRunD to trunOk",
+        "measured; its instance with the regenerated arithmetic, at_most_one_acting_from_config, is content: the hypotheses hcfg / hh are discharged), "
+        "ticker_retry_is_two (rfl on a generated constant), cluster_request_refines_partial (= clientDo_refines); TAllowed (hypothesis of the acting theorems) is now DERIVED in two proved steps (Props/C15Sim.lean): trunOk_iff_local - a system schedule "
+        "is allowed iff the LOCAL trace of every instance (its view (now, acting, okSent) of every tick, of its own 'leader' answers and stops; "
+        "view_tstep: the system step acts on the view as the local step on the projected events) is locally allowed; ticker_term_localOk - the local "
+        "trace emitted by the recursion of leaderLoop (leaderTrace: same tests, same tries, same successor state, emitting tick / ok sent / stop) never "
+        "lets time pass okSent + hold, for every script / duration / period / horizon / outside close; lrunOk_idle + lrunOk_append for the stretches "
+        "without leadership; at_most_one_acting_of_local = the acting theorem on that hypothesis. STILL OPEN (prose, no Lean statement): that the local "
+        "trace of an instance over its whole life (campaign, lead, stop, resign, follow, campaign again = runCluster's loop) is a concatenation of such "
+        "terms and idle stretches - needs a model of runCluster that emits system events; leaderTrace is a second recursion beside leaderLoop, tied to it by "
+        "leaderTrace_returns_with_loop (it stops exactly when and where leaderLoop returns, goes on leading while it has not)",
         "etcd: success / refusal theorems are for fault-free calls of a live session on a non-empty prefix; expiry_bound / takeover need '/'-terminated "
-        "prefixes (as runCluster builds them: two prefixes whose keys could collide are correspondence-only); the key space starts empty (foreign junk "
-        "under a prefix is not covered; the Redis model takes any initial store)",
+        "prefixes (as runCluster builds them: two prefixes whose keys could collide are correspondence-only); the key space: etcd_at_most_one_holder_any_keyspace "
+        "holds from EVERY well-formed key space (Wf: what an etcd server guarantees) incl. foreign junk under the prefix - executed: `j:<key>:<val>` events at "
+        "the head of generated / corpus traces put lease-less foreign keys before the sessions come up, the REAL etcdElection answers as the model does "
+        "(an older junk key under the prefix makes every campaign lose for ever and Leader() name the junk value: a liveness loss, no second leader); the "
+        "other etcd_* theorems (success iff, expiry bound, takeover) are still stated from the empty key space; a junk key NAMED like the election key of a "
+        "session of the trace (<prefix><hex lease id>) is excluded: the server grants a lease id once. EXPLICIT EXCLUSIONS (no theorem, no run): a session "
+        "that expires BETWEEN the Txn and the Delete of one Campaign other than through the modelled cut (ct/cd windows cover it), keep-alive RESPONSES lost "
+        "while the lease is extended at the store (the lessor is not run: keep-alives are events), compaction / watch / member restore",
         "OBSERVATION about the etcd path, outside C15 (whose text is about the Redis-based lease): NO acting bound with cluster.metaEtcd. Nothing reads "
         "Session.Done(); Renew is only a Get and extends nothing; the lease timer of 8b531f9 is re-armed by every successful Renew, so it measures "
         "'last successful READ + hold', unrelated to the key's remaining life; acting_has_lease / at_most_one_acting are Redis-only and do not carry "
@@ -233,7 +321,28 @@ PROP = {
         "instant), tick 1, grant 2 3, campaign 2 -> leader while 1 is still told leader (at the store: one holder, 2); instance 1 goes on running "
         "RunLeader until its next Renew (<= one renew period, if its Gets are answered) or until the timer (last Renew + hold). A repair would watch "
         "Session.Done() / arm the timer from keep-alive responses; not attempted (outside the property)",
-        "cluster-type lease store: exercised (correspondence + monitors), no separate model - the single-store model is the specification; -ASK is not generated",
+        "OBSERVATION about the etcd path, liveness, outside C15 (which is about at-most-one): an OLDER FOREIGN KEY under an election prefix makes every "
+        "campaign lose for ever and Leader() return the foreign value - Campaign / Renew / Leader read `Get(prefix, WithFirstCreate)` and trust whatever key "
+        "is first-created there; nothing checks that it is an election key (<prefix><hex lease id>) or carries a lease, so it never expires and nobody ever "
+        "resigns it. Witness, model (Props/C15EtcdJunk.lean, decide): key space [k/zzz = x @create 4, no lease], grant 1 3, campaign k/ 1 -> follower ok; "
+        "grant 2 3, campaign k/ 2 -> follower; isHolder 1 = isHolder 2 = false; leader k/ -> 'x'. Witness, REAL etcdElection on the etcd double: corpus "
+        "seed_s5.txt `etrace 0 7 11 1=61,2=62 j:6b2f7a7a:78 g:1:3 g:2:3 c:6b2f:1:0 c:6b2f:2:0 l:6b2f …` (both campaigns follower, Leader() = 78 = 'x', also "
+        "after t:3001) and ~1.4k generated traces per run (counter etcd_ev_junk_key). At most one holder still holds (etcd_at_most_one_holder_any_keyspace): "
+        "zero leaders, not two. A followers' RunFollower(leader) is then handed the junk value as the leader's address. Repair (not attempted, outside the "
+        "property): accept only keys attached to a live lease / of the election key shape, or delete lease-less keys under the prefix at start-up",
+        "cluster-type lease store: model of its own (Model/LeaseCluster.lean: per-node key spaces, slot owner, MIGRATING/IMPORTING, client redirections "
+        "MOVED / ASK+ASKING) with a PROVED refinement to the single store for whole runs (cluster_run_refines; CWf = a key of a migrating slot is live on "
+        "one of the two nodes only - kept by every event of the model, established by `begin`); the model's `serve` and the double's routing are two hand "
+        "transcriptions tied through the real client only (every answer of the real client equals the single-store model's; the NUMBER of requests per "
+        "call - clientDo's bound 3 - is not compared); fail-over and a resharding that loses keys stay outside (assumption above)",
+        "duration arithmetic: regenerated by an expression translator of this property (harness/extract/c15arith.go: literals, time units folded to "
+        "values, the two duration fields, + - * wrapped to int64 when an operand is not constant, / by a positive constant as Int.tdiv hoisted into a "
+        "named let, int / int64 / time.Duration conversions as identity = a 64-bit platform; if / else-if chains assigning the two fields, blocks that "
+        "touch neither and do not return nil, final return nil; anything else = generator error, broken tie), NOT by gofn (methods on a config pointer, "
+        "time.Duration, a package-level getter are outside its subset). gen_fixDur_eq_model is proved by naming every intermediate value and handing "
+        "the cases to omega (survives split / merged / reordered clamps, swapped operands, other spellings of the constants); what is NOT regenerated: "
+        "that run() / leaseHold() / the ticker read the SAME configuration object that fix() fixed (config.GetSyncerConfig().Cluster: tied by the "
+        "cfgfix / leasettl / ticker ops on the real run()), runCluster's late-answer guard `time.Since(leaseFrom) >= sc.leaseHold()` (skeleton fact)",
     ],
 }
 
@@ -254,7 +363,12 @@ MANIFEST = {
             "holder's key is the first-created one, success only when no foreign key is older, failed renewal = ErrNotLeader/ErrNoLeader, resign removes "
             "only the own key at the remembered revision, a session without keep-alive holds nothing once its deadline has passed; the real election code "
             "+ real clientv3 request builders + real concurrency.Session run against an in-process etcd double. clusterTicker with calls of ANY duration "
-            "(tickerRunD, parameters regenerated): it returns within hold of the SEND of the last successful call.",
+            "(tickerRunD, parameters regenerated): it returns within hold of the SEND of the last successful call; tickerRun is its duration-free section "
+            "(tickerRunD_eq_tickerRun). Session 5: the duration arithmetic of config fix / run() ttl / leaseHold() / ticker period regenerated "
+            "(Gen/LeaseArith.lean) with gen_fixDur_eq_model, gen_hold_plus_renew (hold + renew = ttl exactly, nothing wraps) and the acting theorem from "
+            "those constants only (at_most_one_acting_from_config: drift + stop time <= renew period, >= 1 s); a cluster-type lease store with MOVED and "
+            "ASK / ASKING (Model/LeaseCluster.lean) refines the single store over whole runs (cluster_run_refines), the real client's handleAsk is run "
+            "against a migrating double.",
     "note": "trusted: Lean kernel (propext, Classical.choice, Quot.sound only), Redis/Lua semantics of the subset as transcribed, script "
             "atomicity + single store clock, extractor's Lua parser (cross-checked against the double's interpreter), lease-store double; "
             "etcd semantics (transcribed in model and double, no etcd binary), etcd client lessor not run; "
